@@ -4,6 +4,22 @@ TB = ("Trusted: Lean 4.33 kernel (axioms at most propext, Classical.choice, Quot
       "the hand-written model, tied to the code only by the correspondence run (differential testing of the model's executable definitions against the real crate on generated and enumerated inputs); "
       "SHA-256 as a free term algebra. ")
 TEXT = {
+    "C01": {
+        "text": "Theorems on the folder model for all histories: a created (fresh id) or updated secret reads back exactly what was written, other secrets are untouched, a deleted secret is absent, listing = readable ids, a moved secret is in exactly one folder, and rebuilding from the persisted log gives the same answers (through C02's invariant). Tied to the real LocalAccount on both backends by generated histories with a served-vs-recorded oracle after every step, sign-out/sign-in and fresh-instance sign-in, and by replaying the default folder's operations on the model.",
+        "note": TB + "Modelled rather than verified: encryption (content tokens), the vault mirror (equal to the served vault), sqlite/file system.",
+    },
+    "C02": {
+        "text": "Invariant `reduce log = served vault` proved for every history of local operations (induction), for checked merges whose events are applicable, for force merges, and for prefixes of the log (replay up to an earlier point = folder as it was); the merge replay's disagreement with the reducer is a proved witness and a recorded finding. Tied by comparing, after every step and after every sync, the served folder with FolderReducer::reduce(log).build decrypted with the folder key, and by model correspondence of vault and replay views.",
+        "note": TB + "Modelled rather than verified: encryption, storage.",
+    },
+    "C12": {
+        "text": "Theorems: replaying the compacted event list yields exactly the folder (name, flags, description, secrets in order), the compacted log has 1 + live events, and any interleaving/repetition of edits and compactions keeps the folder equal to the replay of its log. Tied by compaction steps inside generated histories on both backends (content before/after, log length, reload).",
+        "note": TB + "Partial: the key-change half of C12 (old key rejected, no old-key blob left) is not yet covered.",
+    },
+    "C20": {
+        "text": "Theorem for ANY sequence of index calls (add/remove/update of present or absent documents): one document per (folder, secret) and per-folder and favourites counters equal a recount; witness that a merged update of an absent secret commits a stale document. Tied by comparing, after every step of generated histories (local edits, moves, folder removal, merges from a second device, re-sign-in), the index documents with the live secrets and the counters with a recount.",
+        "note": TB + "Modelled rather than verified: probly-search ranking/tokenising; query results are covered only through document membership.",
+    },
     "C09": {
         "text": "Theorems for every sequence of server requests (any interleaving of any number of devices at request granularity): each request leaves the server log unchanged or as a prefix followed by exactly the accepted patch; the storage/tree invariant is preserved; every state-changing request answers accepted / conflict / error; the paged ancestor scan always makes progress (no hang); no accepted event is dropped when the rewound records are contained in the applied patch (partial) and the unrestricted statement is refuted by a witness schedule, reproduced on the real server (recorded finding). Tie: real devices' sync calls run concurrently against real server storage with a harness scheduler releasing one request at a time in generated orders; server logs are checked after every request.",
         "note": TB + "Partial: tokio/OS scheduling inside a request and lock fairness are runtime behaviour outside the model.",
